@@ -706,6 +706,28 @@ func (m *Monitors) onAck(name string, idx int) {
 	if cur, ok := m.inflight[name]; !ok || cur != idx {
 		m.violate("C07", "ack-own-delivery", "ack-of-undelivered-event", fmt.Sprintf("%s acked e%d", w.sim.Tok[name], idx))
 	}
+	tokAck := w.sim.Tok[name]
+	if !m.opFailed && !m.opLeaseLost && len(w.env.Faults) == 0 && !w.staleInOp && !w.nestedInOp && !m.filteredAck && m.opStores == 0 && idx < len(w.log) {
+		if rr, ok := w.byID[w.log[idx].Headers[workflow.HeaderRunID]]; ok && len(rr.versions) > 0 {
+			last := rr.versions[len(rr.versions)-1]
+			// C15: the delete consumer acknowledges a request only after it has written the scrubbed, DataDeleted record
+			if tokAck == "del" && int(last.RunState) == 7 {
+				m.violate("C15", "request-executed", "delete-request-acknowledged-without-deletion"+m.afterFlag(),
+					fmt.Sprintf("the delete consumer acknowledged e%d without writing anything: run r%d stays RequestedDataDeleted (object %d) and the request will not be delivered again", idx, rr.ord, ObjToken(last.Object)))
+			}
+			// C16: what a step function returns as a declared destination is persisted (status and the object it left) before the event is acknowledged
+			if strings.HasPrefix(tokAck, "st:") && len(m.opInvocations) > 0 {
+				inv := m.opInvocations[len(m.opInvocations)-1]
+				if parts := strings.Split(inv.Outcome, ":"); inv.Kind == "step" && inv.Depth == 1 && len(parts) == 3 && parts[0] == "r" {
+					next, _ := strconv.Atoi(parts[1])
+					if next != 0 && next != -1 && w.Cfg.Declared(inv.Status, next) && int(inv.Persisted.Status) == inv.Status && !isStopped(int(inv.Persisted.RunState)) {
+						m.violate("C16", "advance-persisted", "returned-advance-not-persisted"+m.afterFlag(),
+							fmt.Sprintf("the step function of status %d returned the declared destination %d for run r%d (object left: %s) but nothing was written before e%d was acknowledged", inv.Status, next, inv.Run, parts[2], idx))
+					}
+				}
+			}
+		}
+	}
 	if m.opFailed && w.sim.Tok[name] == "del" && len(w.env.Faults) == 0 && !m.opLeaseLost {
 		// C15: "If the delete function fails, the run stays RequestedDataDeleted with its object intact and the request is retried"
 		m.violate("C15", "failed-delete-retried", "failed-delete-acknowledged"+m.afterFlag(),
